@@ -395,7 +395,24 @@ def classify(F, c, em, gcx):
     p = [unwrap_pat(x['pat']) for x in ct['params'][1:] if 'pat' in x]
     if len(p) != 1 or p[0]['k'] != 'Binding': raise UUndec('list closure must take one index')
     cx.names[p[0]['var']] = 'm'
-    tup = [x for x in walk(ct['body']) if x['k'] == 'Tuple' and len(x['fields']) == 2]
+    # local names inside the closure: `let row = m / root;`, `let (row, col) = (m / root, m % root);`
+    in_lets = set()
+    for b in walk(ct['body']):
+        if b['k'] != 'Block': continue
+        for st in b['stmts']:
+            if st['k'] != 'Let' or st.get('init') is None or st['init'].get('exp') is not None: continue      # lets written in the source, not those of macro expansions
+            for x in walk(st['init']): in_lets.add(id(x))
+            q = unwrap_pat(st['pat']); i0 = strip(st['init'])
+            if q['k'] == 'Binding' and not q.get('mutable'):
+                try: cx.defs[q['var']] = poly_of(st['init'], cx)
+                except UUndec: pass
+            elif q['k'] == 'Leaf' and 'adt' not in q and i0['k'] == 'Tuple':
+                for sp in q['subs']:
+                    qq = unwrap_pat(sp['pat'])
+                    if qq['k'] == 'Binding' and not qq.get('mutable') and sp['field'] < len(i0['fields']):
+                        try: cx.defs[qq['var']] = poly_of(i0['fields'][sp['field']], cx)
+                        except UUndec: pass
+    tup = [x for x in walk(ct['body']) if x['k'] == 'Tuple' and len(x['fields']) == 2 and id(x) not in in_lets]
     txt = template_text(ct['body'])
     import engine_l
     from engine_t import tokenizer_pattern
